@@ -14,9 +14,10 @@
                                    `!(a o b o …)` (`asfound_fails_first`: so the round trip fails there)
   * `eval_roundtrip_fixed`         the repaired round trip preserves the predicate on every state
   * `lex_print`                    the lexer reads the written text as the token view `toks`
-  NOT proved: the full converse of `parse_print_asfound_partial` (a negation as a non-last operand at
-  *any* position / depth makes the as-found round trip fail); the harness counts disagreements
-  (`asfound-converse-mismatch`, 0 observed).
+  The full converse of `parse_print_asfound_partial` (a negation as a non-last operand at *any*
+  position / depth makes the as-found round trip fail) is proved in `Lemmas/C15PSR.lean`
+  (`parse_print_asfound_iff`, with the tree read back given in closed form by `rr`); the harness still
+  counts disagreements (`asfound-converse-mismatch`, 0 observed).
 -/
 import PercevalModel.Model.C15PS
 
